@@ -46,9 +46,19 @@ def oracle_cases(tier, rng):
                             yield dict(kind='2d', wave=wn, mode=mode, J=J, H=int(H), W=int(W), none=mask, axes=[(int(H), L), (int(W), L)], seed=int(rng.integers(1 << 30)))
 
 
-def strat_key(cfg):
+    # separate column / row wavelets (4-tuple)
+    for (wc, wr) in [('db2', 'db4'), ('db4', 'sym4'), ('bior2.2', 'db3'), ('haar', 'bior1.3')]:
+        Lc, Lr = pywt.Wavelet(wc).dec_len, pywt.Wavelet(wr).dec_len
+        for mode in MODES5:
+            for J in (1, 2):
+                for (H, W) in [(4 * Lc, 4 * Lr + 2), (24, 30)]:
+                    yield dict(kind='2d', wave=wc, wave_row=wr, mode=mode, J=J, H=H, W=W, none=None, axes=[(H, Lc), (W, Lr)], seed=int(rng.integers(1 << 30)))
+
+
+def strat_key_(cfg):
     L = cfg['axes'][0][1]; n = cfg['axes'][0][0]
-    return '%s/%s/J%d/%s/%s/%s' % (cfg['kind'], cfg['mode'], cfg['J'], 'short' if n < L else 'long', 'odd' if n % 2 else 'even', 'none' if cfg['none'] else 'full')
+    return '%s%s/%s/J%d/%s/%s/%s' % (cfg['kind'], '-mixed' if cfg.get('wave_row') else '', cfg['mode'], cfg['J'], 'short' if n < L else 'long', 'odd' if n % 2 else 'even', 'none' if cfg['none'] else 'full')
+strat_key = strat_key_
 
 
 def shapes_1d(N, J, L, mode):
@@ -74,16 +84,18 @@ def oracle_run(cfg):
             want = pywt.waverec([yl] + [np.zeros_like(h) if m else h for m, h in zip(mask, yh)][::-1], wn, mode=mode, axis=-1)
             ext = (cfg['N'],)
         else:
-            shh, shw = shapes_1d(cfg['H'], J, L, mode), shapes_1d(cfg['W'], J, L, mode)
+            Lr = pywt.Wavelet(cfg['wave_row']).dec_len if cfg.get('wave_row') else L
+            shh, shw = shapes_1d(cfg['H'], J, L, mode), shapes_1d(cfg['W'], J, Lr, mode)
             yh = [r.standard_normal((1, 2, 3, a, b)) for a, b in zip(shh, shw)]
             yl = r.standard_normal((1, 2, shh[-1], shw[-1]))
-            got = DWTInverse(wave=wn, mode=mode)((torch.tensor(yl), [None if m else torch.tensor(h) for m, h in zip(mask, yh)])).numpy()
+            from props import c01
+            got = DWTInverse(wave=c01.wave_arg(cfg, 'rec'), mode=mode)((torch.tensor(yl), [None if m else torch.tensor(h) for m, h in zip(mask, yh)])).numpy()
             ref = [yl] + [tuple((np.zeros_like(h) if m else h)[:, :, b] for b in range(3)) for m, h in zip(mask, yh)][::-1]
-            want = pywt.waverec2(ref, wn, mode=mode, axes=(-2, -1))
+            want = pywt.waverec2(ref, c01.pywt_arg(cfg), mode=mode, axes=(-2, -1))
             ext = (cfg['H'], cfg['W'])
     except (RuntimeError, ValueError) as e:
         return dict(error='%s: %s' % (type(e).__name__, str(e)[:200]))
-    scale = dwtfam.gain(wn, J, len(ext))
+    scale = dwtfam.gain(wn, J, len(ext)) * (dwtfam.gain(cfg['wave_row'], J, 1) if cfg.get('wave_row') else 1.0)
     if cfg['none']:
         # None reconstructs like zeros on the signal's extent
         sl = (Ellipsis,) + tuple(slice(0, e) for e in ext)
@@ -107,8 +119,11 @@ def none_oversize(cfg, fail):
             lens.append((lens[j] + 1) // 2 if per else (lens[j] + L - 1) // 2)
         for j in range(J - 1):
             rec = 2 * lens[j + 2] if per else 2 * lens[j + 2] - L + 2      # length of the lowpass handed to level j
-            if cfg['none'][j] and rec > lens[j + 1] and (per or j >= 1):
-                return True
+            if cfg['none'][j] and rec > lens[j + 1]:
+                # periodization: the circular wrap spreads the extra sample over the extent;
+                # other modes: only harmful when a finer level is present (its shape then mismatches)
+                if per or any(not cfg['none'][jj] for jj in range(j)):
+                    return True
     return False
 
 
